@@ -62,6 +62,15 @@ def analyse(ctx, replace=None, only=None):
         if not R.require(n in fns, "anchor function %s not found" % n):
             return
     wrappers(R, fns)
+    # every put of every cache flavour goes through the table's put (which runs the destructors of what it displaces and keeps
+    # the key unique): no path returns without it
+    from sa.cfg import Typestate as _TS
+    for nm_ in ("s_fifo_cache_put", "s_lifo_cache_put", "s_lru_cache_put"):
+        g_ = fns[nm_]
+        puts_ = g_.calls("aws_linked_hash_table_put")
+        ts_ = _TS(g_, 0, lambda e, s_, puts_=puts_: 1 if any(e is p_ for p_ in puts_) else s_)
+        R.check(bool(puts_) and ts_.exit_states == {1}, "PUT", "%s:always-through-the-table" % nm_, "%s()" % nm_, "every path of the cache's put calls aws_linked_hash_table_put",
+                "%s can return without calling aws_linked_hash_table_put (exit states %s): a value stored on that path replaces the old one without the value destructor being run for it" % (nm_, sorted(ts_.exit_states)))
     caches(R, P, fns)
     dispatchers(R, P, fns)
     table(R, P, fns)
@@ -485,6 +494,7 @@ def table(R, P, fns):
 
 
 MUTANTS = [
+    {"name": "lru-put-updates-the-newest-entry-in-place", "file": "source/lru_cache.c", "expect": "PUT", "old": "static int s_lru_cache_put(struct aws_cache *cache, const void *key, void *p_value) {\n", "new": "static int s_lru_cache_put(struct aws_cache *cache, const void *key, void *p_value) {\n    if (key == NULL) {\n        return AWS_OP_SUCCESS;\n    }\n"},
     {"name": "put-shortcut-before-dispatch", "file": "source/cache.c", "expect": "POLICY", "old": "    return cache->vtable->put(cache, key, p_value);", "new": "    void *cur = NULL;\n    if (cache->vtable->find(cache, key, &cur) == AWS_OP_SUCCESS && cur == p_value) {\n        return AWS_OP_SUCCESS;\n    }\n    return cache->vtable->put(cache, key, p_value);"},
     {"name": "value-destructor-skipped-for-null", "file": LHT, "expect": "DESTROY", "old": "    if (node->table->user_on_value_destroy) {", "new": "    if (node->table->user_on_value_destroy && node->value) {"},
     {"name": "fifo-evicts-back", "file": "source/fifo_cache.c", "expect": "VICTIM", "old": "aws_linked_list_front(list);", "new": "aws_linked_list_back(list);"},
